@@ -52,6 +52,8 @@ def handle (op real : String) : Verdict := Id.run do
       | _ => pure ()
   let model := " ".intercalate outs
   let sig := s!"c{s.clients.length}-s{s.sessions.length}"
+  if realToks.any (·.endsWith "+extra") then
+    return { kind := "spec", sig, key := "C01:two-replies", detail := s!"a USE was answered with more than one frame: {op} -> {real}" }
   if let some w := specBad then
     return { kind := "spec", sig, key := "C07:wrong-session", detail := s!"{w}: {op} -> {real}" }
   if model ≠ real then return { kind := "diff", sig, detail := model }
